@@ -19,6 +19,14 @@ def run(ctx):
         "time: origin_server_ts is placed in the verifier's past (key validity faults are +-1 h around it, the "
         "valid_until_ts = origin_server_ts boundary exactly) or 6 / 8 days in its future (keys valid 30 more days): "
         "the 7-day cap is exercised to +-1 day of the real clock only; the expired_ts boundary is not exercised exactly",
+        "signatures are made over an INDEPENDENT redacted form: the projection of the event onto the keep lists that "
+        "Redaction.tla derives for the room version and event type (carried by each record), signed with SignJSON; the "
+        "signature PDU.Sign makes must be the same (key C06/signed-form/...); event types with their own keep lists "
+        "(aliases, create, join_rules, power_levels, history_visibility, redaction, member with "
+        "join_authorised_via_users_server / third_party_invite) are enumerated with the crypto states only",
+        "presentation `received` (not for joins of pseudo-ID rooms, whose mxid_mapping redaction drops; in room version 8 the redacted form of a restricted join has lost join_authorised_via_users_server - repaired by room version 9 - so the authorising server is not required of it): the signed event gets a top-level key added in transit and is parsed with "
+        "NewEventFromUntrustedJSON (content hash fails -> redacted form): same verdict as for the event as signed; "
+        "enumerated with the plain key sources and silent other servers",
         "key sources: by default every key is in the database and the key ring has no fetcher; for %s the keys of "
         "%s are only at a key fetcher, and / or the fetcher volunteers an unexpired copy (valid a day from now) "
         "of every database-held key of a required server; expectation: an expired key held by the database is final, "
@@ -35,7 +43,7 @@ def run(ctx):
     ]
     ctx.exhaustive = True
     ctx.notes["rule"] = (
-        "every scenario of EventSigs.tla: 16 room versions x {non-member, join, invite, leave, ban, knock} x target on "
+        "every scenario of EventSigs.tla: 16 room versions x {message and 6 event types with their own redaction keep lists, join, invite, leave, ban, knock} x target on "
         "the sender's / another server x join_authorised_via_users_server absent / naming the sender's, the target's or "
         "a third server x event-ID server = / != sender's server (room versions 1-2) x (all ok | all absent | %s "
         "carrying one of 10 non-ok states) x other servers absent / signing validly%s x key sources (database / fetcher "
